@@ -29,7 +29,7 @@ LEVEL = "fault_enumeration"
 SHARDS = {"quick": 4, "thorough": 16}
 SHARD_TIMEOUT = {"quick": 900, "thorough": 3400}
 REQUIRED = ["wsgi-rendezvous", "wsgi-yield-injection", "asgi-virtual-time", "cleanup-exactly-once", "no-leaked-thread", "no-pending-task",
-            "delivered-prefix", "bounded-return", "deadlock-analysis-armed", "producer-steps-after-close", "queued-relay", "busy-producer", "asgi-fault-combinations"]
+            "delivered-prefix", "bounded-return", "deadlock-analysis-armed", "producer-steps-after-close", "queued-relay", "busy-producer", "asgi-fault-combinations", "overlapped-clients"]
 RULE = ("WSGI SendEventResponse rendezvous scenarios: producer length n in 0..4 x close point k (before first next, after item 1..n, after exhaustion) x producer state at "
         "close {exhausted, mid-step then yields / returns / raises, ahead (item ready, relay blocked in put)} x ping {20 ms, never}; WSGI yield-injection scenarios: random "
         "n<=4, close point, producer delays 0-3 ms, producer raising, ping 2 ms / never, LINE-event pauses p=0.4; WSGI StreamResponse early close; ASGI StreamResponse and "
@@ -315,6 +315,77 @@ def wsgi_stream_response(ctx, n, k, raise_at, kind="generator"):
         ctx.violation(f"wsgi-stream|exception-identity|{type(r.exc).__name__ if r.exc else 'none'}", case, repr(r.exc))
 
 
+def overlapped_clients(ctx, n, k, ping, first_ends):
+    """ONE SendEventResponse object over a re-iterable producer answers two connections that overlap in time; the first
+    client closes after k events (or reads to its end, first_ends='exhausted'); the second must still get all n events"""
+    from baize import wsgi
+    pool, prefix = new_pool()
+    marks = {"cleanup": 0, "entered": 0}
+    case = {"scenario": "one response object, two overlapping clients", "n": n, "first_client_closes_after": k, "ping": ping, "first_ends": first_ends}
+
+    class Feed:
+        def __iter__(self):
+            return gen()
+
+    def gen():
+        marks["entered"] += 1
+        try:
+            for i in range(n):
+                yield {"data": str(i), "id": str(i)}
+        finally:
+            marks["cleanup"] += 1
+    resp = wsgi.SendEventResponse(Feed(), ping_interval=ping)
+    res = {}
+
+    def clients():
+        try:
+            it1 = iter(resp(drivers.to_environ(drivers.Req()), lambda s, h, e=None: None))
+            it2 = iter(resp(drivers.to_environ(drivers.Req()), lambda s, h, e=None: None))
+            got1, got2 = [], []
+            while len(ids_of(got1)) < min(k, n):
+                got1.append(next(it1))
+                if len(ids_of(got2)) < 1 and n:
+                    got2.append(next(it2))  # the second stream has started while the first is still open
+            if first_ends == "exhausted":
+                for c in it1:
+                    got1.append(c)
+            it1.close()
+            for c in it2:
+                got2.append(c)
+            it2.close()
+            res["got1"], res["got2"] = ids_of(got1), ids_of(got2)
+        except BaseException as e:  # noqa
+            res["exc"] = e
+    ct = threading.Thread(target=clients, daemon=True, name=prefix + "consumer")
+    ct.start()
+    ct.join(10.0)
+    ctx.mon("overlapped-clients")
+    ctx.mon("bounded-return")
+    if ct.is_alive():
+        verdict, stacks = deadlock_analysis(ct, prefix)
+        if verdict.startswith("deadlock"):
+            ctx.violation(f"wsgi-sse|{verdict}|overlapped-clients", case, stacks)
+        else:
+            ctx.inconclusive(f"overlapped-clients scenario {case} did not return within the watchdog: {stacks}")
+        ctx.extra["_stuck_threads"] = True
+        return
+    if "exc" in res:
+        ctx.violation(f"wsgi-sse|overlapped-clients|unexpected-exception-{type(res['exc']).__name__}", case, repr(res["exc"]))
+    else:
+        if res["got2"] != list(range(n)):
+            ctx.violation("wsgi-sse|overlapped-clients|second-client-lost-events", case, f"second client got {res['got2']}, producer yields 0..{n - 1}")
+        if res["got1"] != list(range(len(res["got1"]))):
+            ctx.violation("wsgi-sse|overlapped-clients|first-client-order", case, repr(res["got1"]))
+    leaked = leak_check(prefix)
+    ctx.mon("no-leaked-thread")
+    if leaked:
+        ctx.violation("wsgi-sse|overlapped-clients|relay-thread-still-running", case, repr(leaked))
+    ctx.mon("cleanup-exactly-once")
+    if marks["cleanup"] != marks["entered"]:
+        ctx.violation("wsgi-sse|overlapped-clients|producer-not-closed", case, f"{marks['entered']} generators started, {marks['cleanup']} cleaned up")
+    pool.shutdown(wait=False)
+
+
 def queued_relay(ctx, ping):
     """all workers of the shared pool are busy: a second event stream's relay is still queued when its iterable is closed"""
     import baize.wsgi.responses as R
@@ -587,6 +658,8 @@ def asgi_scenario(ctx, cls_name, n_items, item_delay, send_delay, t_disc, ping, 
     async def send(m):
         if send_delay:
             await asyncio.sleep(send_delay)
+        if m["type"] == "http.response.start" and send_fail_at == -1:
+            raise OSError("verif: injected send failure")  # the very first message cannot be written
         if m["type"] == "http.response.body":
             if send_fail_at is not None and nbody[0] >= send_fail_at:
                 raise OSError("verif: injected send failure")
@@ -728,7 +801,7 @@ def run(ctx):
                                 ctx.case_enum(nt)
                                 if agen and n_items and raise_at is None and (idx // 6) % 4 == 0:
                                     # faults in combination: the send fails (client gone without a disconnect message) and/or the producer's cleanup raises
-                                    for cr, sf in ((True, None), (False, rng.randrange(0, n_items + 1)), (True, rng.randrange(0, n_items + 1))):
+                                    for cr, sf in ((True, None), (False, rng.randrange(0, n_items + 1)), (True, rng.randrange(0, n_items + 1)), (False, -1), (True, -1)):
                                         sig, nt = asgi_scenario(ctx, cls, n_items, idl, sdl, td, 1.0, None, True, cleanup_raises=cr, send_fail_at=sf)
                                         ctx.mon("asgi-fault-combinations")
                                         ctx.case_enum(True)
@@ -760,8 +833,13 @@ def run(ctx):
         for ping in (0.02, 0.2):
             queued_relay(ctx, ping)
             ctx.case(("queued-relay", ping))
+        for n, k in ((3, 1), (4, 2), (6, 0), (5, 5), (30, 3)):
+            for first_ends in ("closed-early", "exhausted"):
+                overlapped_clients(ctx, n, k, 5, first_ends)
+                ctx.case(("overlapped-clients", n, k, first_ends))
     else:
         ctx.mon("queued-relay", 0)
+        ctx.mon("overlapped-clients", 0)
     # ---------------- WSGI rendezvous
     import itertools
     scen = []
@@ -826,6 +904,8 @@ def replay(ctx, case):
                       case.get("send_fail_at"), case.get("busy_endless_producer", False))
     elif case.get("class") == "wsgi.StreamResponse":
         wsgi_stream_response(ctx, case["n"], case["close_after"], case["raise_at"], case.get("producer", "generator"))
+    elif case.get("scenario", "").startswith("one response object, two overlapping"):
+        overlapped_clients(ctx, case["n"], case["first_client_closes_after"], case["ping"], case["first_ends"])
     elif "scenario" in case:
         queued_relay(ctx, case["ping"])
     elif "state" in case:
